@@ -113,3 +113,24 @@ Definition t_cat0 {A} (ts : list (tensor A)) : res (tensor A) :=
     then Ok (T (fold_right Z.add 0 (map dim0 ts) :: tailshape t0) (concat (map data ts)))
     else Err "RuntimeError"%string
   end.
+
+(* ---- decidable equality, used by the correspondence evaluations ---------------------------- *)
+Fixpoint zlist_eqb (a b : list Z) : bool :=
+  match a, b with
+  | [], [] => true
+  | x :: a', y :: b' => (x =? y) && zlist_eqb a' b'
+  | _, _ => false
+  end.
+Definition t_eqb (a b : tensor Z) : bool := zlist_eqb (shape a) (shape b) && zlist_eqb (data a) (data b).
+Definition res_t_eqb (a b : res (tensor Z)) : bool :=
+  match a, b with
+  | Ok x, Ok y => t_eqb x y
+  | Err _, Err _ => true
+  | _, _ => false
+  end.
+Fixpoint failing_from {A} (chk : A -> bool) (l : list A) (i : nat) : list nat :=
+  match l with
+  | [] => []
+  | a :: l' => if chk a then failing_from chk l' (S i) else i :: failing_from chk l' (S i)
+  end.
+Definition failing {A} (chk : A -> bool) (l : list A) : list nat := failing_from chk l 0.
